@@ -4,7 +4,7 @@
    correspondence on every run; documented semantics: Model/Spec.v (README instruction tables). *)
 From Coq Require Import ZArith NArith List Bool.
 From BE Require Import Model.TableTypes Gen.Tables Model.Regs Model.Decode Model.IL Model.Lift Model.Static Model.Spec
-  Model.Emu Proofs.AluProofs Proofs.ExecProofs Proofs.AccessProofs Proofs.ExecProofs2 Proofs.ExecMemProofs.
+  Model.Emu Proofs.AluProofs Proofs.ExecProofs Proofs.AccessProofs Proofs.ExecProofs2 Proofs.ExecMemProofs Proofs.ExecPtrProofs.
 Import ListNotations.
 Open Scope Z_scope.
 
@@ -115,6 +115,30 @@ Theorem C04_mv_store_imem_exact :
   store_imm_is_spec 204 (fun n k => [OIMem 1 n; OImm8 k]) 3 /\ store_imm_is_spec 205 (fun n k => [OIMem 2 n; OImm16 k]) 4.
 Proof. repeat split; [exact mv_imem_A | exact mv_imem_BA | exact mv_imem_I | exact mv_imem_X | exact mv_imem_imm8 | exact mvw_imem_imm16]. Qed.
 Print Assumptions C04_mv_store_imem_exact.
+
+(* register-indirect forms: MV A,[r] / [r++] / [--r] / [r+n] / [r-n] and the stores MV [..],A, for r = X, Y, U, S and every
+   offset byte: the byte read / written is the one the operand denotes, the pointer is updated as documented (post-increment
+   after, pre-decrement before the access, 20-bit register), nothing else architectural changes.  The IL's scratch register
+   TEMP1 is outside the comparison (arch_eqT); byte memory and a full scratch-register file are assumed *)
+Theorem C04_mv_pointer_forms_exact :
+  (forall m r, In (m, r) simple_modes -> ptr_is_spec (mk_instr 144 [OReg RA 1; OEMemReg 1 m None] 2) 144) /\
+  (forall m r, In (m, r) inc_modes -> ptr_is_spec (mk_instr 144 [OReg RA 1; OEMemReg 1 m None] 2) 144) /\
+  (forall m r, In (m, r) dec_modes -> ptr_is_spec (mk_instr 144 [OReg RA 1; OEMemReg 1 m None] 2) 144) /\
+  (forall m r n, In (m, r) plus_modes -> ptr_is_spec (mk_instr 144 [OReg RA 1; OEMemReg 1 m (Some n)] 3) 144) /\
+  (forall m r n, In (m, r) minus_modes -> ptr_is_spec (mk_instr 144 [OReg RA 1; OEMemReg 1 m (Some n)] 3) 144) /\
+  (forall m r, In (m, r) simple_modes -> ptr_is_spec (mk_instr 176 [OEMemReg 1 m None; OReg RA 1] 2) 176) /\
+  (forall m r, In (m, r) inc_modes -> ptr_is_spec (mk_instr 176 [OEMemReg 1 m None; OReg RA 1] 2) 176) /\
+  (forall m r, In (m, r) dec_modes -> ptr_is_spec (mk_instr 176 [OEMemReg 1 m None; OReg RA 1] 2) 176) /\
+  (forall m r n, In (m, r) plus_modes -> ptr_is_spec (mk_instr 176 [OEMemReg 1 m (Some n); OReg RA 1] 3) 176) /\
+  (forall m r n, In (m, r) minus_modes -> ptr_is_spec (mk_instr 176 [OEMemReg 1 m (Some n); OReg RA 1] 3) 176) /\
+  ((d_cls (entry_of 144), d_ops (entry_of 144)) = (I_MV, [PReg RA 1; PEMemReg 1 None]) /\
+   (d_cls (entry_of 176), d_ops (entry_of 176)) = (I_MV, [PEMemReg 1 None; PReg RA 1])).
+Proof.
+  split; [exact mv_A_simple|]. split; [exact mv_A_postinc|]. split; [exact mv_A_predec|]. split; [exact mv_A_plus|].
+  split; [exact mv_A_minus|]. split; [exact mv_simple_A|]. split; [exact mv_postinc_A|]. split; [exact mv_predec_A|].
+  split; [exact mv_plus_A|]. split; [exact mv_minus_A|]. exact ptr_opcodes_check.
+Qed.
+Print Assumptions C04_mv_pointer_forms_exact.
 
 Theorem C04_more_opcodes_are_the_tables :
   (forallb (fun oc => match d_cls (entry_of (fst oc)), snd oc with
